@@ -21,8 +21,13 @@ works in float32, so every comparison carries a derived tolerance
   is what a float32 Kabsch can deliver, exactly degenerate sets (g = 0) are
   tight again.
 
-The constants were calibrated on the unchanged tree (notes/C16.md) with a
-margin >= 8 over the largest ratio seen in 2e5 cases.
+With E = the error rotation expressed in the singular basis (angle t, axis u)
+the loss of the Kabsch objective is exactly (1 - cos t) * sum_a u_a^2 g_a, so
+the per-axis form above is exact for the cap and first order for the delta
+branch.  The constants were calibrated on the unchanged tree (notes/C16.md):
+largest observed/allowed ratio 0.08 in the delta branch (margin 12), 0.89 =
+sqrt(2 / CAP) in the cap branch (a rigorous bound, reached by nearly collinear
+sets whose rotation about the long axis is noise in float32).
 """
 
 import math
@@ -145,11 +150,6 @@ def tolerances(ref, S):
     return tolA, tolB, kappa
 
 
-def upper_bound(ref, S):
-    tolA, tolB, _ = tolerances(ref, S)
-    return math.sqrt(ref["rmsd"] ** 2 + tolA * tolA) + tolB
-
-
 def numeric_rank(X, S):
     """Rank of a centred point set, judged at the resolution float32 can hold."""
     X = np.asarray(X, dtype=np.float64)
@@ -223,9 +223,8 @@ def make_mask(case, n):
     bits = case.get("mask")
     if bits is None:
         return None
-    m = np.zeros(n, dtype=bool)
-    for i, b in enumerate(bits[:n]):
-        m[i] = bool(b)
+    # bit i of the integer = atom i is fitted; mask_keep guarantees >= 1 atom
+    m = np.array([(bits >> i) & 1 for i in range(n)], dtype=bool)
     m[case.get("mask_keep", 0) % n] = True
     return m
 
@@ -299,7 +298,7 @@ def params64(tr, k, m):
     return R, c, t
 
 
-def check_optimal(o, F, M, fitted, S, what, exact=False, label=True):
+def check_optimal(o, F, M, fitted, S, what, exact=False):
     """F, M, fitted: (k,3) float64 over the atoms the fit was asked for."""
     ref = kabsch64(F, M)
     tolA, tolB, kappa = tolerances(ref, S)
@@ -441,7 +440,9 @@ def st_pointset(draw, tier, min_n=1, shapes=SHAPES):
 def st_mask(draw, n):
     if draw(st.integers(0, 2)) == 0:
         return None, 0
-    bits = draw(st.lists(st.sampled_from([True, True, False]), min_size=n, max_size=n))
+    bits = draw(st.integers(0, 2**n - 1))
+    if draw(st.booleans()):
+        bits |= draw(st.integers(0, 2**n - 1))  # denser masks
     return bits, draw(st.integers(0, max(n - 1, 0)))
 
 
@@ -589,7 +590,7 @@ def st_stacks(tier):
         case["seed"] = draw(st.integers(0, 2**32 - 1))
         case["m"] = draw(st.integers(2, 4 if tier == "quick" else 8))
         case["fixed_form"] = draw(st.sampled_from(["array", "array", "stack1", "stackm", "stackm"]))
-        case["mobile_form"] = draw(st.sampled_from(["array", "stack1", "stackm", "stackm", "stackm", "stackm"]))
+        case["mobile_form"] = draw(st.sampled_from(["array", "stack1", "stack1", "stackm", "stackm", "stackm", "stackm"]))
         case["kinds"] = draw(st.lists(st.sampled_from(KINDS), min_size=case["m"], max_size=case["m"]))
         case["noise"] = draw(st_noise())
         case["mask"], case["mask_keep"] = draw(st_mask(case["n"]))
@@ -801,7 +802,7 @@ def run_outliers(case):
     if not ok:
         return o
     ok = o.check(
-        len(anchors) >= 1 and int(anchors.min()) >= 0 and int(anchors.max()) < n and bool(np.all(np.diff(anchors) > 0)),
+        len(anchors) >= 1 and int(anchors.min()) >= 0 and int(anchors.max()) < n and len(np.unique(anchors)) == len(anchors),
         "anchors_valid_indices",
         lambda: f"anchors {anchors.tolist()} for {n} atoms",
     )
@@ -1059,7 +1060,7 @@ def run_homologs(case):
     ok = o.check(len(fix_idx) >= 1, "anchors_valid_indices", "no anchors")
     for name, idx, atoms in (("fixed", fix_idx, fixed), ("mobile", mob_idx, mobile)):
         ok &= o.check(
-            len(idx) > 0 and int(idx.min()) >= 0 and int(idx.max()) < atoms.array_length() and bool(np.all(np.diff(idx) > 0)),
+            len(idx) > 0 and int(idx.min()) >= 0 and int(idx.max()) < atoms.array_length() and len(np.unique(idx)) == len(idx),
             "anchors_valid_indices",
             lambda: f"{name} anchors {idx.tolist()} for {atoms.array_length()} atoms",
         )
@@ -1076,6 +1077,8 @@ def run_homologs(case):
         "at_least_min_anchors",
         lambda: f"{len(fix_idx)} anchors < min_anchors={min_anchors} (backbone atoms {nf}/{nm})",
     )
+    if not o.ok:
+        return o
     # anchors pair residues of corresponding chains (same order of chains)
     f_chain = np.array(["ABCDEF".index(c) for c in fixed.chain_id[fix_idx]])
     m_chain = np.array(["UVWXYZ".index(c) for c in mobile.chain_id[mob_idx]])
@@ -1128,7 +1131,7 @@ def run_homologs(case):
             compared += 1
     check_matrix_form(o, tr, mm, [M[j] for j in range(mm)], "homologs")
     o.label("coords_compared" if compared == mm else "coords_some_ill_conditioned")
-    o.label("fallback_all_backbone" if fallback and nf == nm else "aligned_anchors")
+    o.label("all_backbone_atoms_paired" if fallback else "subset_of_backbone_paired")
     dropped = min(nf, nm) - len(fix_idx)
     o.label("anchors<backbone" if dropped > 0 else "anchors=backbone")
     if any(op != "keep" for ch in case["chains"] for op, _ in ch["edits"]):
@@ -1152,8 +1155,8 @@ SUBS = [
         "fit",
         st_fit,
         run_fit,
-        quick=6400,
-        thorough=250000,
+        quick=4000,
+        thorough=160000,
         rule=">= 4 masked atoms of rank 3 with noise (optimality) or >= 2 atoms of rank < 3 (degenerate class)",
         clauses="proper rotation; rmsd minimal (float64 Kabsch + 200 perturbations); exact copy -> 0; apply == matrix == fitted; rmsd()",
     ),
@@ -1161,8 +1164,8 @@ SUBS = [
         "stacks",
         st_stacks,
         run_stacks,
-        quick=2400,
-        thorough=80000,
+        quick=1600,
+        thorough=60000,
         rule="a stack on either side and a non-trivial model as in 'fit'",
         clauses="model-wise fit == per-model calls for every array/stack combination; shapes follow mobile",
     ),
@@ -1170,8 +1173,8 @@ SUBS = [
         "without_outliers",
         st_outliers,
         run_outliers,
-        quick=2400,
-        thorough=80000,
+        quick=1600,
+        thorough=60000,
         rule=">= 1 atom removed from the anchors, n >= 4",
         clauses="anchors valid, >= min_anchors, transform == superimpose() on the anchors, fit optimal over anchors",
     ),
@@ -1179,8 +1182,8 @@ SUBS = [
         "homologs",
         st_homologs,
         run_homologs,
-        quick=1600,
-        thorough=50000,
+        quick=1200,
+        thorough=40000,
         rule="anchors are a proper subset of the backbone representatives, >= 3 anchors",
         clauses="anchors valid CA/P atoms in corresponding chains, >= min_anchors, transform == superimpose() on the anchors",
     ),
